@@ -4,7 +4,11 @@ open Conv
    parses the case into Machine/Syntax.v terms, runs Sem.run; rendering of metadata values to the strings
    machine.NewStringFromValue produces (big.Rat.String for portions) and sorting of maps happen here. ---- *)
 let cs x = chars_of_string (atom x)
-let qof n d = { Model.qnum = zarg n; Model.qden = pos_of_z (BigZ.of_string (atom d)) }
+(* portions enter the model as reduced fractions (what ParsePortionSpecific / big.Rat hand to the compiler) *)
+let qof n d =
+  let n = BigZ.of_string (atom n) and d = BigZ.of_string (atom d) in
+  let g = BigZ.gcd n d in let g = if BigZ.sign g = 0 then BigZ.one else g in
+  { Model.qnum = coqz_of_z (BigZ.div n g); Model.qden = pos_of_z (BigZ.div d g) }
 let acc = function L [A "alit"; s] -> Model.AccLit (cs s) | L [A "avar"; s] -> Model.AccVar (cs s) | _ -> failwith "acc"
 let asset = function L [A "slit"; s] -> Model.AssetLit (cs s) | L [A "svar"; s] -> Model.AssetVar (cs s) | _ -> failwith "asset"
 let rec mon = function
